@@ -335,3 +335,38 @@ Definition chk_C12 (t0 : N) (h : list iter) (tr : list out) : bool :=
       && shape_ok h rest
       && let ks := hist_keys h in w_check ks h rest (map (fun _ => None) ks) (t0 + 5000, 5000)
   end.
+
+(* ------------------------------------------------------------------ schedules *)
+(* the environment never wakes the daemon later than it asked (it may wake it earlier, e.g.
+   for API calls) *)
+Fixpoint timely_from (s : state) (h : list iter) : bool :=
+  match h with
+  | [] => true
+  | it :: h' =>
+      if st_alive s
+      then match min_list (st_timers s) with Some w => i_now it <=? w | None => true end
+           && timely_from (fst (iterate s it)) h'
+      else true
+  end.
+Definition timely (t0 : N) (h : list iter) : bool := timely_from (init t0) h.
+
+(* the timer-exact silent schedule: n iterations, each exactly at the requested wake-up, no
+   API call, no datagram *)
+Fixpoint silent_hist (s : state) (n : nat) : list iter :=
+  match n with
+  | O => []
+  | S n' => if st_alive s
+            then match min_list (st_timers s) with
+                 | None => []
+                 | Some w => mkIter w [] :: silent_hist (fst (iterate s (mkIter w []))) n'
+                 end
+            else []
+  end.
+
+(* the times at which question k left, with multiplicity *)
+Definition ktimes (k : wkey) (tr : list out) : list N :=
+  flat_map (fun o => repeat (o_now o) (count_pkt k (o_sent o))) tr.
+
+(* the back-off ladder of the property text: delays 1, 2, 4, ... capped at 3600 s *)
+Fixpoint dly (j : nat) : N := match j with O => 1 | S j' => spec_next_delay (dly j') end.
+Fixpoint ladder (j : nat) : N := match j with O => 0 | S j' => ladder j' + dly j' * 1000 end.
